@@ -294,8 +294,9 @@ def normalize_url(
     if hostname:
         hostname = decode_punycode_hostname(hostname)
 
-    # Dropping :80 & :443
-    if port == 80 or port == 443:
+    # Dropping :80 & :443 when they are the default port of the scheme
+    # NOTE: a url without scheme was given the http scheme above
+    if (port == 80 and scheme == "http") or (port == 443 and scheme == "https"):
         port = None
 
     # Normalizing the path
